@@ -294,11 +294,10 @@ func Probe(name string) string {
 	return out
 }
 
-
 // Explore runs n random worlds of a stream (concurrently) and prints summary statistics (debug aid).
 func Explore(stream string, seed uint64, n int, verbose bool) string {
 	root := u.NewRng(seed)
-	if stream == "hier" {
+	if stream == "hier" || stream == "hiersat" {
 		root = u.NewRng(seed ^ hierSalt)
 	}
 	if stream == "sized" {
@@ -311,6 +310,15 @@ func Explore(stream string, seed uint64, n int, verbose bool) string {
 	var fam []*World
 	if stream == "hierfam" {
 		fam = hierFamily()
+		n = len(fam)
+	}
+	if stream == "satfam" {
+		for _, name := range hierCorpus {
+			if strings.HasPrefix(name, "hier-saturation") {
+				fam = append(fam, scenario(name))
+			}
+		}
+		fam = append(fam, satFamily()...)
 		n = len(fam)
 	}
 	if stream == "sizedfam" {
@@ -334,7 +342,7 @@ func Explore(stream string, seed uint64, n int, verbose bool) string {
 				st := map[string]int{}
 				r := root.Fork(uint64(i))
 				var w *World
-				if stream == "hierfam" || stream == "sizedfam" {
+				if stream == "hierfam" || stream == "sizedfam" || stream == "satfam" {
 					w = fam[i]
 				} else if stream == "sized" {
 					w = GenSized(r)
@@ -344,6 +352,8 @@ func Explore(stream string, seed uint64, n int, verbose bool) string {
 					w = GenClass(r, false)
 				} else if stream == "hier" {
 					w = GenHier(r)
+				} else if stream == "hiersat" {
+					w = genHierSat(r)
 				} else {
 					w = GenGeneral(r)
 				}
@@ -351,6 +361,21 @@ func Explore(stream string, seed uint64, n int, verbose bool) string {
 				tr := Run(w, 12)
 				st[fmt.Sprintf("evicting-cycles=%d", tr.EvictingCycles)]++
 				st[fmt.Sprintf("cycles=%d", len(tr.Cycles))]++
+				st["multiplier m="+multName(w0.Cfg.Multiplier)]++
+				for _, c := range tr.Cycles {
+					for _, o := range c.Sats {
+						if o.GateDisagrees() {
+							st["saturation:REAL-GATE-ADMITS-WHAT-THE-RULE-REFUSES"]++
+						} else if o.Exact {
+							st[fmt.Sprintf("saturation:m=%s:rule-admits=%v:real-gate-admits=%v", multName(o.Mult), o.RefAdmits, o.RealAdmits)]++
+							if verbose && !o.RealAdmits {
+								out += fmt.Sprintf("REAL-GATE-RECALL-REFUSES case %d: %s\n%s", i, Describe(w0), tr.Dump())
+							}
+						} else {
+							st["saturation:not-compared"]++
+						}
+					}
+				}
 				if tr.LassoFrom >= 0 {
 					st["LASSO"]++
 					tags := lassoTags(w0, tr) + " " + lassoShape(tr)
